@@ -146,6 +146,17 @@ def draw_sam(sim: Sim, n: int) -> tuple[np.ndarray, bool]:
 
 def draw_any(sim: Sim, n: int) -> tuple[np.ndarray, bool]:
     rng = sim.np_rng("any-values")
+    if sim.flip(1, 3, "any-sparse"):
+        # an additive integer game with a few integer perturbations: most intervals are degenerate, gaps are small
+        # exact numbers (0, +-1, +-1/2, ...) - the values special-cased code tends to treat as "empty" or "done"
+        w = rng.integers(-3, 4, n).astype(np.float64)
+        v = np.array([sum(w[i] for i in range(n) if s >> i & 1) for s in range(2 ** n)], dtype=np.float64)
+        for _ in range(int(rng.integers(1, 4))):
+            s_ = int(rng.integers(1, 2 ** n))
+            if popcount(s_) >= 2:
+                v[s_] += float(rng.integers(-3, 4)) * (popcount(s_) if rng.random() < 0.5 else 1)
+        v[0] = 0.0
+        return v, True
     if sim.flip(1, 2, "any-float"):
         v = rng.normal(0, 5, 2 ** n)
         exact = False
